@@ -20,7 +20,7 @@ var specs = map[string]Spec{
 	"C18": {
 		Prop: "C18", Engine: "wire-world", Level: "exploration", Binary: "root", Corpus: true, Race: true,
 		Quick:    Tier{Count: 90000, BudgetS: 40},
-		Thorough: Tier{Count: 12000000, BudgetS: 900},
+		Thorough: Tier{Count: 12000000, BudgetS: 900, RaceCount: 160000},
 		Rule: "three run kinds drawn from the seed, each a set of simulated caller tasks under a seeded scheduler (run-to-completion, random walk with switch probability 0.1/0.3/0.6, PCT-style priorities; optional statement-level preemption inside internal/frame, internal/concurrent, internal/plugin): (codec) 2-8 (thorough 2-24) tasks each performing one of Encode, Decode+force, EncodeEnveloped, DecodeEnveloped, ReadRequest+WriteResponse and the four generated-code paths on its own random value through simulated readers/writers that yield at every call, over simulated sync.Pools whose reuse order, drops and New calls are choices, compared with the same operation executed alone; pool invariants (no double Put, no write between Put and the next Get) checked at every call; (frame) 2-8 client tasks x 1-3 Sends with unique payloads on one frame.Client over simulated pipes to a frame.Server task answering payload+counter, optionally exiting mid-run: every caller gets its own payload, and the history stamped with global event sequence numbers is linearizable (porcupine) against 'state = requests served'; (fanout) MultiServiceGenerator.Generate / MultiHandle.Close / concurrent.Range over 1-6 in-process generators that yield inside their calls, return disjoint or colliding file sets and fail at chosen indexes: exact union on success, collision reported, every injected error present, each element visited once. Thorough adds the race tier: the same runs in a -race build whose scheduler hands the baton over through raw pipe syscalls the detector cannot see. " +
 			"Every run is non-trivial; distinct = distinct choice lists.",
 		RealComp: append([]string{"internal/frame (Client, Server, Reader, Writer)", "internal/concurrent", "internal/plugin (MultiServiceGenerator, MultiHandle)"}, realWire...), StubComp: stubWire,
